@@ -214,13 +214,41 @@ func ruleC01R3(r *Run, cut *cutInfo) {
 	p := r.P
 	fn := cut.Fn
 	name := fnName(fn)
-	isAdd := func(ins ssa.Instruction) bool {
-		if !isCallNamed(ins, "sync/atomic.AddUint64") {
-			return false
+	// addOperand: the value added to the total by ins — directly, or through a one-level helper whose
+	// atomic add takes one of its parameters.
+	addOperand := func(ins ssa.Instruction) (ssa.Value, bool) {
+		if isCallNamed(ins, "sync/atomic.AddUint64") {
+			cc := instrCall(ins)
+			if fieldKeyOfAddr(cc.Args[0]) == fkTotal {
+				return cc.Args[1], true
+			}
+			return nil, false
 		}
-		cc := instrCall(ins)
-		return fieldKeyOfAddr(cc.Args[0]) == fkTotal
+		c, ok := ins.(*ssa.Call)
+		if !ok {
+			return nil, false
+		}
+		cf := c.Call.StaticCallee()
+		if cf == nil || !p.Analysed(cf) || cf == fn {
+			return nil, false
+		}
+		var res ssa.Value
+		allInstrs(cf, func(x ssa.Instruction) {
+			if !isCallNamed(x, "sync/atomic.AddUint64") || fieldKeyOfAddr(instrCall(x).Args[0]) != fkTotal {
+				return
+			}
+			op := instrCall(x).Args[1]
+			for i, prm := range cf.Params {
+				for _, l := range p.Leaves(op, provOpts{}) {
+					if l == "param:"+funcLeafName(cf)+"#"+prm.Name() && i < len(c.Call.Args) {
+						res = c.Call.Args[i]
+					}
+				}
+			}
+		})
+		return res, res != nil
 	}
+	isAdd := func(ins ssa.Instruction) bool { _, ok := addOperand(ins); return ok }
 	var adds []ssa.Instruction
 	allInstrs(fn, func(ins ssa.Instruction) {
 		if isAdd(ins) {
@@ -232,7 +260,8 @@ func ruleC01R3(r *Run, cut *cutInfo) {
 		return
 	}
 	for i, a := range adds {
-		leaves := p.Leaves(instrCall(a).Args[1], provOpts{})
+		opv, _ := addOperand(a)
+		leaves := p.Leaves(opv, provOpts{})
 		ok := hasLeaf(leaves, "field:"+fkCount) && !hasLeaf(leaves, "field:"+fkPayload)
 		bad := leavesWithin(leaves, []string{"field:" + fkCount, "param:*"})
 		r.Check(fmt.Sprintf("%s add#%d operand", name, i+1), ok && len(bad) == 0, posOf(p, a), name, "operand of the total's add derives from ["+joinLeaves(leaves)+"]; must be the buffered point count only")
@@ -525,6 +554,11 @@ func ruleC01R7(r *Run, cut *cutInfo) {
 		fn := st.Parent()
 		fa := st.Addr.(*ssa.FieldAddr)
 		ok := resetFns[fn] || isLocalObject(pathOf(fa.X))
+		if !ok && fn.Parent() == nil && len(p.staticCallSites(fn)) == 0 {
+			if _, isRoot := computeRootsCached(p).roots[fn]; !isRoot || strings.HasPrefix(computeRootsCached(p).roots[fn], "method without static callers") || strings.HasPrefix(computeRootsCached(p).roots[fn], "unexported function without static callers") {
+				continue // a helper nobody calls
+			}
+		}
 		r.Check("store sendBuffer in "+fnName(fn), ok, p.pos(st.Pos()), fnName(fn), "Upstream.sendBuffer may be replaced only by the constructor and by the cut's reset")
 	}
 	updaters := map[string]bool{}
